@@ -15,7 +15,7 @@ CHECKS["C01"] = ("reference-model monitor: generated core-language programs (typ
  "the reference interpreter is the rig's reading of the stated semantics; constructs the property does not pin are not generated", "DESIGN.md §3 C01")
 CHECKS["C02"] = ("relational monitor: the same generated program (integer/struct/array/enum/loop programs, f32/f64 arithmetic programs, composite-value programs with whole-aggregate assignments, the deterministic matrix programs, pinned probes) compiled by the real compiler for native and wasm; native executable vs .wasm under node with the shipped runtime.js; numeric comparison of float lines, termination-kind comparison",
  "Held on N programs accepted by both back ends: identical value sequences (floats within 1e-12 / 1e-5 for f32) and the same termination kind (normal vs panic/trap) on pointer size 8 (native) and 4 (wasm), including heap growth in runtime.js and out-of-bounds panics.",
- "programs rejected by either target or crashing the compiler are out of scope and only counted; the wasm back end lacks closures, results and strings, so those features are compared by C01 only", "DESIGN.md §3 C02")
+ "programs rejected by either target or crashing the compiler are out of scope and only counted; the wasm back end lacks closures, results and string concatenation, so those features are compared by C01 only", "DESIGN.md §3 C02")
 CHECKS["C04"] = ("reference-model monitor with dynamic index semantics over generated fixed-array programs (literal, const, reassigned, branch/match-dependent, loop-carried, incremented, borrowed, closure-modified, arithmetic and opaque indices, uses where no sound analysis knows the index) plus a directed matrix of 25 index-modifying containers x 7 use positions x taken/not taken x index known/unknown before, with canary locals; native run (thorough: valgrind on a share)",
  "Held on N programs: every program was either rejected with only T0028/T0009 (never when all indices were in-range literals/consts) or printed exactly the reference's lines — the element selected by the value the index has at that moment, negative values counting from the end — with untouched canaries, or panicked exactly where the reference does.",
  "scenario templates are the rig's reading of the property's index classes", "DESIGN.md §3 C04")
